@@ -7,6 +7,7 @@ var verifHarnesses = map[string]func(){
 	"VerifC18FrameRoundTrip": VerifC18FrameRoundTrip,
 	"VerifC18FrameArbitrary": VerifC18FrameArbitrary,
 	"VerifC18FrameAlloc":     VerifC18FrameAlloc,
+	"VerifC02Journal":        VerifC02Journal,
 	"VerifC04Cache":          VerifC04Cache,
 	"VerifC04CacheLock":      VerifC04CacheLock,
 }
